@@ -72,6 +72,20 @@ def decompress (raw : Nat) : Nat → Bytes → Bytes → M Bytes
         decompress raw f r.1 r.2
       | [] => pure out
 
+/-- `decompress` with the iteration budget made VISIBLE: the same loop, except that a budget used up while the Go loop
+condition (`pos < len(data) && len(result) < rawSize`) still holds is a fault (`.budget`) instead of a silent return.
+Used only to state termination (`Props.C10.Toast.C10_terminates_decompressPGLZ`): `decompress` equals it whenever the
+budget exceeds len(data), so the Go loop has left its condition within len(data)+1 iterations. -/
+def decompressB (raw : Nat) : Nat → Bytes → Bytes → M Bytes
+  | 0, data, out => if data = [] ∨ ¬ out.length < raw then pure out else throw .budget
+  | f+1, data, out =>
+    if data = [] ∨ ¬ out.length < raw then pure out
+    else match data with
+      | ctrl :: rest => do
+        let r ← items raw 8 ctrl.toNat 0 rest out
+        decompressB raw f r.1 r.2
+      | [] => pure out
+
 /-! ### compiled code: the same loops over arrays (`@[csimp]`, proved equal; the list versions above are what
 the theorems talk about, the array versions are what the driver executes) -/
 
